@@ -16,7 +16,8 @@ RULE = ("regex texts rendered from random ASTs (depth <=4, tokens a b cd x1, esc
         "reference NFA, cross-checked with Python re) is attached to every Regex object at construction and compared "
         "on accepts (all words <=3 + a foreign token), to_epsilon_nfa (exact equivalence), to_cfg (contains on words "
         "<=3), union/concatenate/kleene_star and operator forms, and str() re-parse. Non-trivial: AST has >=1 operator; "
-        "distinct = distinct text.")
+        "distinct = distinct text."
+        ' Later additions: words as tuples and one-shot iterables; operands queried after their combination was built and queried.')
 ASSUMPTIONS = ["ill-formed texts where the documented grammar is silent (trailing binary operator, empty group, empty "
                "string, doubled star) may be accepted or refused, but only with MisformedRegexError",
                "to_cfg comparison is bounded (words of length <= 3)"]
